@@ -6,7 +6,7 @@
  * Cut: the std::deque members of the lane queue -> bounded queue below (contract: FIFO sequence container; push_back appends,
  * front/pop_front at the head, pop_back at the tail, begin/end iterators over the live window, empty() <=> no element; null
  * elements count as elements exactly as in std::deque).
- * Scenario (concrete per query): SA, SB = operation of thread a / b (1 push, 2 pop, 3 pop_specific, 4 two pushes), PRE tasks
+ * Scenario (concrete per query): SA, SB = operation of thread a / b (1 push, 2 pop, 3 pop_specific, 4 two pushes, 5 two pops), PRE tasks
  * pushed before through the real push. Symbolic: schedule, initial lane hints of the two threads (the pre-pushed tasks go where hint HM sends them), isolation tag of every
  * task and of the pop_specific caller (1 or 2).
  * Oracle: no task returned twice / before it was pushed; at quiescence, per lane: queue non-empty <=> population bit set, lane
@@ -21,7 +21,8 @@ typedef struct S_class_std__deque deque_t;
 typedef struct S_struct_std___Deque_iterator iter_t;
 #define NP(op) ((op) == 1 ? 1 : (op) == 4 ? 2 : 0)
 #define NTASK (PRE + NP(SA) + NP(SB))
-#define NGET (((SA) == 2 || (SA) == 3) + ((SB) == 2 || (SB) == 3))
+#define NG(op) ((op) == 2 || (op) == 3 ? 1 : (op) == 5 ? 2 : 0)
+#define NGET (NG(SA) + NG(SB))
 #define QCAP 4
 #ifndef HM
 #define HM 0
